@@ -17,7 +17,7 @@ VARIABLE l
 TraceInit == l = 1
 Allowed(e) == \/ e.ev = "ReadOnly" /\ e.unchanged /\ e.same_as_alone
               \/ e.ev = "Concurrent" /\ e.unchanged /\ e.results_differ = 0
-TraceNext == l <= Len(Trace) /\ Allowed(Trace[l]) /\ l' = l + 1
+TraceNext == l <= Len(Trace) /\ Allowed(Trace[l]) = TRUE /\ l' = l + 1
 TraceSpec == TraceInit /\ [][TraceNext]_l
 TraceAccepted ==
   LET d == TLCGet("stats").diameter IN
